@@ -1,79 +1,170 @@
 ------------------------------- MODULE BearerDefs ----------------------------
 (* Decision table for auth.RequireBearerToken (auth/auth.go), property C14.   *)
-(*  Cases      the abstract product of header shapes, verifier outcomes,      *)
-(*             scope sets, expirations, skew and options                      *)
+(*  classes    of header shapes, verifier outcomes, scope lists, expirations, *)
+(*             skew, URL forms and options (a case = one class of each)       *)
 (*  Expected   the code-shaped procedure (checks in the code's order)         *)
 (*  Holds      the property, stated declaratively over (case, outcome)        *)
-(* TLC checks  \A c \in Cases : Holds(c, Expected(c))  (design level) and the  *)
-(* monitor BearerMon evaluates Holds on outcomes of the real middleware.      *)
+(* TLC checks  Holds(c, Expected(c)) for every case of Bearer!CaseParts       *)
+(* (design level) and the monitor BearerMon evaluates Holds on outcomes of    *)
+(* the real middleware.                                                       *)
+(*                                                                            *)
+(* This module has the value classes of every dimension, Expected and Holds;  *)
+(* the case space itself (a union of products) is in Bearer.tla, so that the  *)
+(* monitor does not enumerate it.                                             *)
 EXTENDS Integers, Sequences, FiniteSets, TLC, Json, SequencesExt
 
-HdrShapes == {"absent", "bearer", "lower", "upper", "blanks", "tab", "lead", "onefield",
-              "threefields", "basic", "glued", "empty"}
+-----------------------------------------------------------------------------
+(* Authorization header shapes *)
+HdrCore == {"absent", "bearer", "lower", "upper", "blanks", "tab", "lead", "onefield",
+            "threefields", "basic", "glued", "empty"}
+\* uspace: the separator between scheme and token is a Unicode space that is not SP / HTAB (NBSP, EM SPACE, VT, NEL ...)
+\* two_xy: the request has TWO Authorization header lines; x, y say whether the first / second line alone is a valid
+\*         Bearer credential (v) or garbage (g); two_vv repeats one credential
+HdrExtra == {"uspace", "two_vg", "two_gv", "two_gg", "two_vv"}
+HdrShapes == HdrCore \cup HdrExtra
 \* exactly two whitespace-separated fields, the first being "bearer" in any case
 ValidSyntax(h) == h \in {"bearer", "lower", "upper", "blanks", "tab", "lead"}
+\* Shapes on which the statement does not settle whether the request "carries a syntactically valid Bearer credential"
+\* (RFC 9110: Authorization is a singleton field; RFC 6750: the separator is 1*SP).  For these only the safety half is
+\* demanded: the handler runs ONLY IF a presented credential is accepted, has the scopes and is unexpired; a refusal
+\* may also be the 401 of "no bearer token".
+Unsettled(h) == h \in {"uspace", "two_vg", "two_gv", "two_vv"}
+\* what the code does: first Authorization line (Header.Get), strings.Fields (unicode.IsSpace)
+CodeValid(h) == ValidSyntax(h) \/ h \in {"uspace", "two_vg", "two_vv"}
 
 \* "*_info": the verifier returns an error TOGETHER WITH a non-nil TokenInfo (e.g. claims parsed from a token whose
 \* signature check failed): the verifier does not accept the credential
 Verifiers == {"ok", "invalid", "wrapinvalid", "oauth", "other", "nilinfo", "invalid_info", "other_info"}
+
+-----------------------------------------------------------------------------
+(* Scopes.  c is a scope that is never required (concretised also as a look-alike of a or b: other case, trailing      *)
+(* blank, prefix, extension).  Both scope lists are LISTS in the API:                                                  *)
+(*   gform  exact   the granted list is the set, shuffled                                                              *)
+(*          dup     ... with every element repeated                                                                    *)
+(*          near    every granted scope is replaced by a look-alike of itself: none of them IS the scope                *)
+(*          joined  the list has ONE element, the blank-separated concatenation of the set (a verifier that did not    *)
+(*                  split the scope claim): with two or more scopes that element is none of them                       *)
+(*   rform  exact / dup (the required list repeats every element)                                                      *)
 ScopeU == {"a", "b", "c"}
 Required == {{}, {"a"}, {"a", "b"}}
 Granted == {{}, {"a"}, {"b"}, {"a", "b"}, {"a", "b", "c"}}
-\* expiration relative to now, AFTER adding the skew: -1 = one ns before now, 0 = now, 1 = one ns after
-Exps == {"zero", "m1", "eq", "p1", "farpast", "farfuture"}
-ExpDelta(e) == CASE e = "m1" -> -1 [] e = "eq" -> 0 [] e = "p1" -> 1
-                 [] e = "farpast" -> -1000000 [] e = "farfuture" -> 1000000 [] OTHER -> 0
-Skews == {0, 5}
+GForms == {"exact", "dup", "near", "joined"}
+RForms == {"exact", "dup"}
+\* the scopes the token really has
+EffGranted(c) == CASE c.gform = "near" -> {}
+                   [] c.gform = "joined" -> (IF Cardinality(c.granted) >= 2 THEN {} ELSE c.granted)
+                   [] OTHER -> c.granted
 
-\* dup: the granted scope LIST repeats each of its elements (scopes are a list in TokenInfo, not a set)
-Cases ==
-  { [hdr |-> h, ver |-> v, req |-> r, granted |-> g, dup |-> d, exp |-> e, skew |-> s, allow |-> a, url |-> u, opts |-> o] :
-      h \in HdrShapes, v \in Verifiers, r \in Required, g \in Granted, d \in BOOLEAN, e \in Exps, s \in Skews,
-      a \in BOOLEAN, u \in BOOLEAN, o \in {"nil", "set"} }
-ValidCase(c) == /\ (c.opts = "nil" => (c.req = {} /\ c.skew = 0 /\ ~c.allow /\ ~c.url))
-                /\ (c.dup => (c.granted # {} /\ c.hdr \in {"bearer", "lower"}))
-CaseSet == {c \in Cases : ValidCase(c)}
+-----------------------------------------------------------------------------
+(* Instants and durations.  A quantity is  q*Q + m*S + l  on three scales that never carry into each other:            *)
+(*   l  nanoseconds (exact)                                                                                            *)
+(*   m  "human" scale, orders of magnitude only: 5 = seconds (1 s .. 30 s), 3600 = an hour or so (1 min .. 2 h, or for   *)
+(*      the skew-relative classes up to 1000 h), 100000 = large (1 day .. 10 years)                                    *)
+(*   q  quarters of the int64-nanosecond Duration range: Q = 2^61 ns (about 73 years), exact for |q| <= 4; the range   *)
+(*      of time.Duration is [-4Q, 4Q-1ns] (about +-292 years); |q| = 5 is "just beyond the Duration range",           *)
+(*      |q| = 20 stands for "at least 20 Q away" up to the extreme representable time.Time values                      *)
+(* The sign of a sum is decided on the highest scale that does not cancel (the concretisation keeps the classes of one *)
+(* scale apart, and checks every representative against the class's verdict with exact integer arithmetic).           *)
+N(q, m, l) == [q |-> q, m |-> m, l |-> l]
+Plus(x, y) == N(x.q + y.q, x.m + y.m, x.l + y.l)
+Minus(x) == N(-x.q, -x.m, -x.l)
+Negative(x) == x.q < 0 \/ (x.q = 0 /\ (x.m < 0 \/ (x.m = 0 /\ x.l < 0)))
+
+\* RequireBearerTokenOptions.ClockSkew is a time.Duration: signed, unvalidated, any int64
+SkewCore == {"0", "s"}
+Skews == {"0", "ns", "s", "large", "q3", "max", "negns", "negs", "neglarge", "min"}
+SkewVal(s) == CASE s = "0" -> N(0, 0, 0)
+                [] s = "ns" -> N(0, 0, 1)            [] s = "negns" -> N(0, 0, -1)
+                [] s = "s" -> N(0, 5, 0)             [] s = "negs" -> N(0, -5, 0)
+                [] s = "large" -> N(0, 100000, 0)    [] s = "neglarge" -> N(0, -100000, 0)
+                [] s = "q3" -> N(3, 0, 0)            \* 3 Q: a duration that fits, but twice it does not
+                [] s = "max" -> N(4, 0, -1)          \* math.MaxInt64 ns
+                [] s = "min" -> N(-4, 0, 0)          \* math.MinInt64 ns
+
+\* TokenInfo.Expiration.  "zero": the zero time.Time (IsZero), in any location.
+\* ExpNear: given relative to the boundary now - skew (m1 = one ns before it, eq = at it, p1 = one ns after it, far* = hours away)
+ExpNear == {"m1", "eq", "p1", "farpast", "farfuture"}
+\* ExpAbs: given relative to now, whatever the skew
+ExpAbs == {"hrago", "hrahead", "q3ago", "q3ahead", "q5ago", "q5ahead", "agesago", "agesahead"}
+ExpCore == {"zero"} \cup ExpNear
+Exps == ExpCore \cup ExpAbs
+NearDelta(e) == CASE e = "m1" -> N(0, 0, -1) [] e = "eq" -> N(0, 0, 0) [] e = "p1" -> N(0, 0, 1)
+                  [] e = "farpast" -> N(0, -3600, 0) [] e = "farfuture" -> N(0, 3600, 0)
+AbsOff(e) == CASE e = "hrago" -> N(0, -3600, 0)   [] e = "hrahead" -> N(0, 3600, 0)
+               [] e = "q3ago" -> N(-3, 0, 0)      [] e = "q3ahead" -> N(3, 0, 0)      \* now-exp fits a Duration, exp+skew-now may not
+               [] e = "q5ago" -> N(-5, 0, 0)      [] e = "q5ahead" -> N(5, 0, 0)      \* now-exp does not fit a Duration
+               [] e = "agesago" -> N(-20, 0, 0)   [] e = "agesahead" -> N(20, 0, 0)   \* year 1 + 1ns, year 9999, min / max time.Time
+\* Expiration - now
+ExpOff(c) == IF c.exp \in ExpNear THEN Plus(Minus(SkewVal(c.skew)), NearDelta(c.exp)) ELSE AbsOff(c.exp)
+\* "expired" is a comparison of instants: Expiration + skew is before now (in the integers: nothing wraps, nothing saturates)
+Expired(c) == c.exp # "zero" /\ Negative(Plus(ExpOff(c), SkewVal(c.skew)))
+
+\* forms of the configured ResourceMetadataURL: none (""), a plain https URL, one with a query (& = and a comma),
+\* one with percent-escapes (%22 %2C %20) and a port, a long one with a fragment
+UrlCore == {"none", "plain"}
+UrlForms == {"none", "plain", "query", "pct", "long"}
+
+-----------------------------------------------------------------------------
+\* A case.  The case space (a union of products over these classes) is Bearer!CaseParts.
+Rec(h, v, r, rf, g, gf, e, s, a, u, o) ==
+  [hdr |-> h, ver |-> v, req |-> r, rform |-> rf, granted |-> g, gform |-> gf, exp |-> e, skew |-> s, allow |-> a, url |-> u, opts |-> o]
+\* nil options configure nothing; list forms need a non-empty list
+ValidCase(c) == /\ (c.opts = "nil" => (c.req = {} /\ c.skew = "0" /\ ~c.allow /\ c.url = "none"))
+                /\ (c.gform = "dup" => (c.granted # {} /\ c.hdr \in {"bearer", "lower"}))
+                /\ (c.gform \in {"near", "joined"} => c.granted # {})
+                /\ (c.rform = "dup" => c.req # {})
 
 -----------------------------------------------------------------------------
 \* Outcome: [status, ran, sameInfo, chal, chalUrl, chalScope]
+\*   chalUrl / chalScope: what a reader of the Bearer challenge (RFC 9110 auth-params, quoted-string unescaped) finds under
+\*   resource_metadata / scope: "none" no such parameter, "match" the configured URL / exactly the configured scopes
+\*   (as a set), "other" anything else
+Admitted == [status |-> 200, ran |-> TRUE, sameInfo |-> TRUE, chal |-> FALSE, chalUrl |-> "none", chalScope |-> "none"]
 Reject(c, st) ==
-  LET ch == st \in {401, 403} /\ c.opts = "set" /\ (c.url \/ c.req # {})
-  IN [status |-> st, ran |-> FALSE, sameInfo |-> FALSE,
-      chal |-> ch, chalUrl |-> ch /\ c.url, chalScope |-> ch /\ c.req # {}]
+  LET ch == st \in {401, 403} /\ c.opts = "set" /\ (c.url # "none" \/ c.req # {})
+  IN [status |-> st, ran |-> FALSE, sameInfo |-> FALSE, chal |-> ch,
+      chalUrl |-> IF ch /\ c.url # "none" THEN "match" ELSE "none",
+      chalScope |-> IF ch /\ c.req # {} THEN "match" ELSE "none"]
 
 Expected(c) ==
-  IF ~ValidSyntax(c.hdr) THEN Reject(c, 401)
+  IF ~CodeValid(c.hdr) THEN Reject(c, 401)
   ELSE IF c.ver \in {"invalid", "wrapinvalid", "invalid_info"} THEN Reject(c, 401)
   ELSE IF c.ver = "oauth" THEN Reject(c, 400)
   ELSE IF c.ver \in {"other", "nilinfo", "other_info"} THEN Reject(c, 500)
-  ELSE IF c.opts = "set" /\ ~(c.req \subseteq c.granted) THEN Reject(c, 403)
-  ELSE IF c.exp = "zero" THEN (IF c.allow THEN [status |-> 200, ran |-> TRUE, sameInfo |-> TRUE, chal |-> FALSE, chalUrl |-> FALSE, chalScope |-> FALSE]
-                               ELSE Reject(c, 401))
-  ELSE IF ExpDelta(c.exp) < 0 THEN Reject(c, 401)      \* Expiration + skew is before now
-  ELSE [status |-> 200, ran |-> TRUE, sameInfo |-> TRUE, chal |-> FALSE, chalUrl |-> FALSE, chalScope |-> FALSE]
+  ELSE IF c.opts = "set" /\ ~(c.req \subseteq EffGranted(c)) THEN Reject(c, 403)    \* slices.Contains per required scope
+  ELSE IF c.exp = "zero" THEN (IF c.allow THEN Admitted ELSE Reject(c, 401))
+  \* Expiration.Add(ClockSkew).Before(time.Now()): time.Time carries int64 SECONDS and Add saturates, so on every class
+  \* here the comparison is the one of the integers
+  ELSE IF Negative(Plus(ExpOff(c), SkewVal(c.skew))) THEN Reject(c, 401)
+  ELSE Admitted
 
 -----------------------------------------------------------------------------
 \* The property.
-Unexpired(c) == IF c.exp = "zero" THEN c.allow ELSE ExpDelta(c.exp) >= 0
-Admit(c) == /\ ValidSyntax(c.hdr) /\ c.ver = "ok"
-            /\ c.req \subseteq c.granted
-            /\ Unexpired(c)
+Unexpired(c) == IF c.exp = "zero" THEN c.allow ELSE ~Expired(c)
+\* the credential is accepted, has every required scope and is unexpired within the skew
+Rest(c) == c.ver = "ok" /\ c.req \subseteq EffGranted(c) /\ Unexpired(c)
+Admit(c) == ValidSyntax(c.hdr) /\ Rest(c)
+MayAdmit(c) == (ValidSyntax(c.hdr) \/ Unsettled(c.hdr)) /\ Rest(c)
 
 \* the statuses that the causes present in c mandate
-CauseStatuses(c) ==
-  IF ~ValidSyntax(c.hdr) THEN {401}
-  ELSE IF c.ver \in {"invalid", "wrapinvalid", "invalid_info"} THEN {401}
+CredStatuses(c) ==
+  IF c.ver \in {"invalid", "wrapinvalid", "invalid_info"} THEN {401}
   ELSE IF c.ver = "oauth" THEN {400}
   ELSE IF c.ver \in {"other", "nilinfo", "other_info"} THEN {500}
-  ELSE (IF ~(c.req \subseteq c.granted) THEN {403} ELSE {}) \cup (IF ~Unexpired(c) THEN {401} ELSE {})
+  ELSE (IF ~(c.req \subseteq EffGranted(c)) THEN {403} ELSE {}) \cup (IF ~Unexpired(c) THEN {401} ELSE {})
+CauseStatuses(c) ==
+  IF ValidSyntax(c.hdr) THEN CredStatuses(c)
+  ELSE IF Unsettled(c.hdr) THEN {401} \cup CredStatuses(c)
+  ELSE {401}
 
 Holds(c, o) ==
-  /\ o.ran <=> Admit(c)                                       \* iff
+  /\ Admit(c) => o.ran                                        \* if
+  /\ o.ran => MayAdmit(c)                                     \* only if (Admit = MayAdmit except on the unsettled shapes)
   /\ o.ran => o.sameInfo                                      \* handler sees exactly the verifier's info
   /\ ~o.ran => o.status \in CauseStatuses(c)                  \* status by cause
   /\ (~o.ran /\ o.status \in {401, 403} /\ c.opts = "set") =>  \* challenge carries what is configured
-        /\ c.url => o.chalUrl
-        /\ c.req # {} => o.chalScope
-  /\ o.chalUrl => c.url
-  /\ o.chalScope => c.req # {}
+        /\ c.url # "none" => o.chalUrl = "match"
+        /\ c.req # {} => o.chalScope = "match"
+  /\ o.chalUrl # "other" /\ (o.chalUrl = "match" => c.url # "none")   \* and nothing that is not configured
+  /\ o.chalScope # "other" /\ (o.chalScope = "match" => c.req # {})
 =============================================================================
